@@ -99,6 +99,8 @@ impl Path {
 #[verifier::external_body] fn opq_readable(p: &PathBuf) -> (r: bool) ensures r == fs_read(pbv(*p)) is Some, { unimplemented!() }
 /// `content.contains("<literal>")` for the `content` bound by the read above (str::contains: the literal occurs as a substring)
 #[verifier::external_body] fn opq_file_contains(p: &PathBuf, lit: &str) -> (r: bool) requires fs_read(pbv(*p)) is Some, ensures r == str_contains(fs_read(pbv(*p)).unwrap(), lit@), { unimplemented!() }
+/// `is_linked_worktree_gitfile(&content)` for the `content` bound by the read above: the `gitdir:` target is `<..>/worktrees/<id>`
+#[verifier::external_body] fn opq_file_is_worktree_gitfile(p: &PathBuf) -> (r: bool) requires fs_read(pbv(*p)) is Some, ensures r == linked_worktree_target(fs_read(pbv(*p)).unwrap()), { unimplemented!() }
 #[verifier::external_body] fn opq_fmt_norepo(p: &PathBuf) -> (r: String) { unimplemented!() }
 
 /// O1 stub for the call that runs git (`rev-parse --is-bare-repository --git-dir --git-common-dir`, `--show-toplevel`).  Its
@@ -133,20 +135,15 @@ pub fn find_repository_in_path(path: &str) -> (r_: Result<Repository, GitAiError
 /// (git-worktree(1)); in a submodule checkout it is `<superproject git dir>/modules/<name>` (gitsubmodules(7)).
 pub open spec fn has_gitdir(c: Seq<char>) -> bool { str_contains(c, "gitdir:"@) }
 pub open spec fn into_modules(c: Seq<char>) -> bool { str_contains(c, "/modules/"@) }
-/// the `gitdir:` path of the text is `<..>/worktrees/<id>`: the git file of a LINKED WORKTREE (uninterpreted here; the replay
-/// driver reads it from the text)
+/// the `gitdir:` path of the text is `<..>/worktrees/<id>`: the git file of a LINKED WORKTREE - what is_linked_worktree_gitfile
+/// (lines / strip_prefix / rsplit: outside the Verus subset) decides; uninterpreted here, the replay driver runs the real helper
+/// against its own reading of the text
 pub uninterp spec fn linked_worktree_target(c: Seq<char>) -> bool;
 /// the git file of a submodule checkout: points into a `/modules/` directory and is not a linked worktree's
 pub open spec fn submodule_gitfile(c: Option<Seq<char>>) -> bool { c is Some && has_gitdir(c.unwrap()) && into_modules(c.unwrap()) && !linked_worktree_target(c.unwrap()) }
 pub open spec fn dot_git(d: PathV) -> PathV { p_child(d, ".git"@) }
 /// a repository root: holds a `.git` directory, or a `.git` file that is not a submodule checkout's
 pub open spec fn is_root(d: PathV) -> bool { fs_exists(dot_git(d)) && !(fs_is_file(dot_git(d)) && submodule_gitfile(fs_read(dot_git(d)))) }
-/// NAMED DEVIATION (finding repofind-1, REPORT.md): the git file of a linked worktree whose path contains a directory called
-/// `modules` (main repository at /srv/modules/app -> `gitdir: /srv/modules/app/.git/worktrees/wt`) is taken for a submodule's
-pub open spec fn dev_worktree_under_modules(d: PathV) -> bool {
-    fs_exists(dot_git(d)) && fs_is_file(dot_git(d)) && fs_read(dot_git(d)) is Some && has_gitdir(fs_read(dot_git(d)).unwrap()) && into_modules(fs_read(dot_git(d)).unwrap())
-        && linked_worktree_target(fs_read(dot_git(d)).unwrap())
-}
 pub open spec fn inside(d: PathV, b: Option<PathV>) -> bool { b is None || p_starts_with(d, b.unwrap()) }
 /// the walk from the k-th ancestor of s upwards: the first ancestor inside the boundary that is a root
 pub open spec fn walk(s: PathV, k: int, b: Option<PathV>) -> Option<PathV>
@@ -160,7 +157,6 @@ pub open spec fn start_of(file: Seq<char>) -> PathV {
     canon_or_self(if fs_is_dir(f) { f } else { match p_parent(f) { Some(q) => q, None => f } })
 }
 pub open spec fn nearest_root(file: Seq<char>, w: Option<&str>) -> Option<PathV> { walk(start_of(file), 0, boundary_of(w)) }
-pub open spec fn no_deviation(s: PathV) -> bool { forall|k: int| 0 <= k <= s.comps.len() ==> !dev_worktree_under_modules(#[trigger] anc(s, k)) }
 
 /// C20 / C12, declaratively: the result of the walk is an ancestor (or the start itself) that is a repository root inside the
 /// boundary, and NO directory between the start and it is a repository root: it is the NEAREST one.  None: no ancestor inside
@@ -197,13 +193,12 @@ proof fn theorem_nearest(s: PathV, b: Option<PathV>, k: int)
     }
 }
 
-//#item file=src/git/repository.rs kind=fn name=find_repository_for_file opaque='[{"expr": "PathBuf::from(file_path)", "call": "opq_pb_from(file_path)"}, {"expr": "file_path .parent() .map(|p| p.to_path_buf()) .unwrap_or_else(|| file_path.clone())", "call": "opq_parent_or_self(&file_path)"}, {"expr": "file_path.clone()", "call": "opq_pb_clone(&file_path)"}, {"expr": "start_dir .canonicalize() .unwrap_or_else(|_| start_dir.clone())", "call": "opq_canon_or_self(&start_dir)"}, {"expr": "workspace_root.map(|root| { PathBuf::from(root) .canonicalize() .unwrap_or_else(|_| PathBuf::from(root)) })", "call": "opq_boundary(workspace_root)"}, {"expr": "dir != boundary.as_path()", "call": "opq_path_ne(dir, boundary)"}, {"expr": "let Ok(content) = std::fs::read_to_string(&git_path)", "call": "opq_readable(&git_path)"}, {"expr": "content.contains(", "call": "opq_file_contains(&git_path,"}, {"expr": "format!( \"No git repository found for file: {}\", file_path.display() )", "call": "opq_fmt_norepo(&file_path)"}]'
+//#item file=src/git/repository.rs kind=fn name=find_repository_for_file opaque='[{"expr": "PathBuf::from(file_path)", "call": "opq_pb_from(file_path)"}, {"expr": "file_path .parent() .map(|p| p.to_path_buf()) .unwrap_or_else(|| file_path.clone())", "call": "opq_parent_or_self(&file_path)"}, {"expr": "file_path.clone()", "call": "opq_pb_clone(&file_path)"}, {"expr": "start_dir .canonicalize() .unwrap_or_else(|_| start_dir.clone())", "call": "opq_canon_or_self(&start_dir)"}, {"expr": "workspace_root.map(|root| { PathBuf::from(root) .canonicalize() .unwrap_or_else(|_| PathBuf::from(root)) })", "call": "opq_boundary(workspace_root)"}, {"expr": "dir != boundary.as_path()", "call": "opq_path_ne(dir, boundary)"}, {"expr": "let Ok(content) = std::fs::read_to_string(&git_path)", "call": "opq_readable(&git_path)"}, {"expr": "content.contains(", "call": "opq_file_contains(&git_path,"}, {"expr": "is_linked_worktree_gitfile(&content)", "call": "opq_file_is_worktree_gitfile(&git_path)"}, {"expr": "format!( \"No git repository found for file: {}\", file_path.display() )", "call": "opq_fmt_norepo(&file_path)"}]'
 //@ #[verifier::loop_isolation(false)]
 pub fn find_repository_for_file(
     file_path: &str,
     workspace_root: Option<&str>,
 ) -> (r_: Result<Repository, GitAiError>)
-//@     requires no_deviation(start_of(file_path@)),
 //@     ensures
 //@         // the repository returned is the one git opens at the NEAREST repository root above the file, inside the boundary
 //@         r_ is Ok ==> nearest_root(file_path@, workspace_root) == Some(opened_at(r_->Ok_0)) && workdir_of(r_->Ok_0) == git_toplevel(opened_at(r_->Ok_0)),
@@ -236,7 +231,7 @@ pub fn find_repository_for_file(
 
     while let Some(dir) = current_dir
     //@     invariant
-    //@         s == pbv(start_dir), s == start_of(fname), n == s.comps.len(), b == obv(workspace_boundary), b == boundary_of(workspace_root), 0 <= k <= n + 1, no_deviation(s),
+    //@         s == pbv(start_dir), s == start_of(fname), n == s.comps.len(), b == obv(workspace_boundary), b == boundary_of(workspace_root), 0 <= k <= n + 1,
     //@         (match current_dir { Some(d) => k <= n && pv(*d) == anc(s, k), None => k == n + 1 }),
     //@         walk(s, 0, b) == walk(s, k, b),
     //@         stopped ==> walk(s, 0, b) is None,
@@ -251,7 +246,7 @@ pub fn find_repository_for_file(
                 break;
             }
         }
-        //@ proof { assert(here.comps.subrange(0, here.comps.len() as int) =~= here.comps); assert(inside(here, b)); lemma_names(); assert(!dev_worktree_under_modules(anc(s, k))); }
+        //@ proof { assert(here.comps.subrange(0, here.comps.len() as int) =~= here.comps); assert(inside(here, b)); lemma_names(); }
         //@ proof { if k < n { assert(anc(s, k).comps.drop_last() =~= anc(s, k + 1).comps); } }
 
         // Check for .git directory or file (file for submodules/worktrees)
@@ -264,6 +259,7 @@ pub fn find_repository_for_file(
                 if opq_readable(&git_path)
                     && opq_file_contains(&git_path, "gitdir:")
                     && opq_file_contains(&git_path, "/modules/")
+                    && !opq_file_is_worktree_gitfile(&git_path)
                 {
                     // This is a submodule, skip it and continue searching up
                     current_dir = dir.parent();
@@ -628,7 +624,6 @@ fn opq_group_push(m: &mut RepoFiles, workdir: &PathBuf, repo: Repository, file: 
 { unimplemented!() }
 /// every group's repository is the one whose work dir is the key
 pub open spec fn keyed_by_workdir(m: RepoFiles) -> bool { gr(m).dom() == gm(m).dom() && forall|k: PathV| #[trigger] gr(m).dom().contains(k) ==> workdir_of(gr(m)[k]) == k }
-pub open spec fn all_no_deviation(files: Seq<Seq<char>>) -> bool { forall|i: int| 0 <= i < files.len() ==> no_deviation(start_of(#[trigger] files[i])) }
 
 pub open spec fn slice_rem(rem: Seq<&String>, v: Seq<String>) -> bool { rem.len() == v.len() && forall|k: int| 0 <= k < rem.len() ==> *(#[trigger] rem[k]) == v[k] }
 
@@ -637,7 +632,6 @@ pub fn group_files_by_repository(
     file_paths: &[String],
     workspace_root: Option<&str>,
 ) -> (r_: (RepoFiles, Vec<String>))
-//@     requires all_no_deviation(views(file_paths@)),
 //@     ensures
 //@         gm(r_.0) == groups(views(file_paths@), workspace_root, file_paths@.len() as int),
 //@         views(r_.1@) == orphans(views(file_paths@), workspace_root, file_paths@.len() as int),
@@ -650,7 +644,7 @@ pub fn group_files_by_repository(
 
     for file_path in it_0: file_paths
     //@     invariant
-    //@         fs == views(file_paths@), all_no_deviation(fs), slice_rem(it_0.snapshot@.remaining(), file_paths@),
+    //@         fs == views(file_paths@), slice_rem(it_0.snapshot@.remaining(), file_paths@),
     //@         gm(repo_files) == groups(fs, workspace_root, it_0.index@ as int),
     //@         views(orphan_files@) == orphans(fs, workspace_root, it_0.index@ as int),
     //@         keyed_by_workdir(repo_files),
@@ -658,7 +652,7 @@ pub fn group_files_by_repository(
         //@ let ghost i = it_0.index@ as int;
         //@ let ghost o0 = orphan_files@;
         //@ let ghost m0 = repo_files;
-        //@ proof { assert(file_path@ == fs[i]); assert(no_deviation(start_of(fs[i]))); }
+        //@ proof { assert(file_path@ == fs[i]); }
         match find_repository_for_file(file_path, workspace_root) {
             Ok(repo) => {
                 let workdir = opq_workdir(&repo);
